@@ -35,7 +35,75 @@ def builders():
     return out
 
 
+def operand_instances():
+    rng = np.random.default_rng(2)
+    n = 4
+    A = rng.normal(size=(n, n)) + 3 * np.eye(n)
+    B2 = rng.normal(size=(2, 2)) + 3 * np.eye(2)
+    L = np.tril(A)
+    P = A @ A.T
+    Q, _ = np.linalg.qr(A)
+    w = np.array([1.5, -2.0, 3.0, 0.5])
+    wp = np.abs(w)
+    U, V = rng.normal(size=(n, 2)), rng.normal(size=(2, n))
+    return [("IdentityMatrix", M.IdentityMatrix(n)), ("ScaledIdentityMatrix", M.ScaledIdentityMatrix(-1.5, n)), ("DiagonalMatrix", M.DiagonalMatrix(w)),
+            ("TriangularMatrix", M.TriangularMatrix(L)), ("InverseTriangularMatrix", M.InverseTriangularMatrix(L)),
+            ("TriangularFactoredDefiniteMatrix", M.TriangularFactoredDefiniteMatrix(L, sign=-1, factor_is_lower=True)), ("DensePositiveDefiniteMatrix", M.DensePositiveDefiniteMatrix(P)),
+            ("DenseSquareMatrix", M.DenseSquareMatrix(A)), ("InverseLUFactoredSquareMatrix", M.DenseSquareMatrix(A).inv), ("DenseSymmetricMatrix", M.DenseSymmetricMatrix((A + A.T) / 2)),
+            ("OrthogonalMatrix", M.OrthogonalMatrix(Q)), ("ScaledOrthogonalMatrix", M.ScaledOrthogonalMatrix(0.7, Q)), ("EigendecomposedSymmetricMatrix", M.EigendecomposedSymmetricMatrix(Q, w)),
+            ("EigendecomposedPositiveDefiniteMatrix", M.EigendecomposedPositiveDefiniteMatrix(Q, wp)), ("SoftAbsRegularizedPositiveDefiniteMatrix", M.SoftAbsRegularizedPositiveDefiniteMatrix((A + A.T) / 2, 1.3)),
+            ("SquareBlockDiagonalMatrix", M.SquareBlockDiagonalMatrix((M.DenseSquareMatrix(B2), M.ScaledIdentityMatrix(-2.0, 2)))),
+            ("SymmetricBlockDiagonalMatrix", M.SymmetricBlockDiagonalMatrix((M.DenseSymmetricMatrix((B2 + B2.T) / 2), M.DiagonalMatrix(w[:2])))),
+            ("PositiveDefiniteBlockDiagonalMatrix", M.PositiveDefiniteBlockDiagonalMatrix((M.DensePositiveDefiniteMatrix(B2 @ B2.T), M.PositiveDiagonalMatrix(wp[:2])))),
+            ("DenseRectangularMatrix", M.DenseRectangularMatrix(V)), ("BlockRowMatrix", M.BlockRowMatrix((M.DenseRectangularMatrix(U), M.DenseSquareMatrix(A)))),
+            ("BlockColumnMatrix", M.BlockColumnMatrix((M.DenseRectangularMatrix(V), M.DenseSquareMatrix(A)))),
+            ("SquareLowRankUpdateMatrix", M.SquareLowRankUpdateMatrix(M.DenseRectangularMatrix(U), M.DenseRectangularMatrix(V), M.DenseSquareMatrix(A))),
+            ("PositiveDefiniteLowRankUpdateMatrix", M.PositiveDefiniteLowRankUpdateMatrix(M.DenseRectangularMatrix(U), M.PositiveDefiniteBlockDiagonalMatrix((M.DensePositiveDefiniteMatrix(B2 @ B2.T), M.PositiveDiagonalMatrix(wp[:2]))))),
+            ("MatrixProduct", M.DenseSquareMatrix(A) @ M.TriangularMatrix(L))]
+
+
+def operands():
+    """products with operands of integer / boolean / float32 dtype agree with the dense product computed in float64"""
+    res = {}
+    for name, X in operand_instances():
+        diffs = {}
+        try:
+            D = np.asarray(X.array, dtype=float)
+            r, c = D.shape
+            derived = [("X", X, D), ("X.T", X.T, D.T)]
+            if r == c and isinstance(X, M.InvertibleMatrix):
+                derived.append(("X.inv", X.inv, np.linalg.inv(D)))
+            if isinstance(X, M.PositiveDefiniteMatrix):
+                derived.append(("X.sqrt", X.sqrt, None))
+            for lab, Y, DY in derived:
+                DY = np.asarray(Y.array, dtype=float) if DY is None else DY
+                for kind, vec in (("int64", np.arange(1, DY.shape[1] + 1)), ("bool", np.arange(DY.shape[1]) % 2 == 0), ("float32", np.arange(1, DY.shape[1] + 1, dtype=np.float32) / 3)):
+                    mat = np.stack([vec, vec[::-1]], axis=1)
+                    for what, got, want in ((f"{lab} @ {kind} vector", Y @ vec, DY @ vec.astype(float)), (f"{lab} @ {kind} matrix", Y @ mat, DY @ mat.astype(float))):
+                        if not np.allclose(np.asarray(got, dtype=float), want, rtol=1e-5 if kind == "float32" else 1e-10, atol=1e-6 if kind == "float32" else 1e-12):
+                            diffs[what] = f"got {np.round(np.asarray(got, dtype=float).ravel()[:4], 5).tolist()}..., dense float64 product {np.round(want.ravel()[:4], 5).tolist()}..."
+                for kind, vec in (("int64", np.arange(1, DY.shape[0] + 1)),):
+                    got, want = vec @ Y, vec.astype(float) @ DY
+                    if not np.allclose(np.asarray(got, dtype=float), want, rtol=1e-10, atol=1e-12):
+                        diffs[f"{kind} vector @ {lab}"] = f"got {np.round(np.asarray(got, dtype=float).ravel()[:4], 5).tolist()}..., dense {np.round(want.ravel()[:4], 5).tolist()}..."
+        except Exception as e:  # noqa: BLE001
+            diffs["exception"] = f"{type(e).__name__}: {e}"
+        res[name] = diffs
+    return res
+
+
 def main():
+    if len(sys.argv) > 1 and sys.argv[1].startswith("operands"):
+        res = operands()
+        print(json.dumps(res))
+        if sys.argv[1] == "operands-check":
+            bad = {k: v for k, v in res.items() if v}
+            if bad:
+                k = next(iter(bad))
+                print("REPRODUCED:", k, bad[k])
+                sys.exit(1)
+            print("not reproduced")
+        return
     res = {}
     for name, mk, n in builders():
         v = np.arange(1, n + 1).astype(float)
